@@ -26,6 +26,7 @@ def run(c, chk):
     chk.rule('R4.6', 'radix constants per prefix guard equal the reference table')
     chk.rule('R4.7', 'boolean words and result codes equal the reference table; an unknown word is a reported failure')
     chk.trusted = ['strtol/strtod (C library)', 'clang/opt IR']
+    refusal_stops_parse(c, chk)
     chk.assumptions = ['strtol\'s own grammar (leading blanks, "+") and inf/nan for floats are not decided']
     fn = c.need('cfg_setopt')
     ex = sym.Explorer(c.modules, max_visits=2, mod_sets=c.mod_sets, max_paths=100000)
@@ -65,7 +66,14 @@ def run(c, chk):
                 w.setdefault('R4.1', p)
             # tests made on this path after the call
             tests = {'nodigits': None, 'garbage': None, 'range': None}
-            for cn, t, ins in p.assume:
+            tainted_range = False
+            # the outcome must not depend on what errno held when the function was entered
+            for k2_, (cn2, t2, _i2) in enumerate(p.assume):
+                if k2_ >= call.seq and sym.mentions(cn2, lambda v: v[0] == 'ld' and v[1] == ('errno',) and len(v) > 2 and v[2] == (0, 0)):
+                    r41 = False
+                    w.setdefault('R4.1', p)
+            errno_writes = [e.seq for e in ev[ci + 1:] if e.kind == 'store' and e.addr == ('errno',)]
+            for k_, (cn, t, ins) in enumerate(p.assume):
                 if cn[0] != 'icmp':
                     continue
                 a, b = cn[2], cn[3]
@@ -76,6 +84,11 @@ def run(c, chk):
                 if ra[0] == 'ld' and ra[1] == endv and sym.is_const(b) and b[1] == 0:
                     tests['garbage'] = ((cn[1] == 'ne') == t)        # True: garbage
                 if ra == ('ld', ('errno',)) and sym.is_const(b) and b[1] == ERANGE:
+                    if any(w_ <= k_ for w_ in errno_writes) and a != ('ld', ('errno',)) and len(a) > 2 and a[2] == (0, 0):
+                        continue          # errno was overwritten after the call: this test looks at a restored, older value
+                    if any(w_ <= k_ for w_ in errno_writes):
+                        tainted_range = True
+                        continue
                     tests['range'] = ((cn[1] == 'eq') == t)
             stored = [e for e in ev[ci + 1:] if e.kind == 'store' and e.addr[0] == 'fld' and e.addr[2] in ('cfg_value_t', 'cfg_simple_t')]
             accepted = p.retval != sym.C0
@@ -121,6 +134,31 @@ def run(c, chk):
 
     radix_table(c, chk, sites['strtol'])
     boolean_table(c, chk, paths)
+
+
+def refusal_stops_parse(c, chk):
+    """R4.8: a value token that the conversion refuses makes the parse fail - in every parser state that stores values"""
+    from .. import parsermodel as pm
+    chk.rule('R4.8', 'in every parser state that stores a value a refused value (cfg_setopt() returned NULL) ends the parse with an error')
+    model = pm.ParserModel(c)
+    n = 0
+    for s_ in model.states:
+        for tr in model.transitions(s_, pm.TOKENS['STR']):
+            so = tr.calls('cfg_setopt')
+            if not so:
+                continue
+            res = so[0].res
+            refused = any((lambda na: na is not None and na[0] == res and na[1] is True)(fp.is_null_assumption(cn, t)) for cn, t, _ in tr.assume)
+            if not refused:
+                continue
+            n += 1
+            if not (tr.kind == 'ret' and tr.ret == 1):
+                chk.fail('R4.8', 'refusal-ignored:state%d' % s_, c.where(so[0].ins), 'parser state %d goes on (%s) after cfg_setopt() refused the value: an invalid number is reported '
+                         'but the text is accepted, the option keeps its old value' % (s_, tr.outcome()), witness=[tr.describe()])
+                return
+    if n:
+        chk.ok('R4.8', 'parser: %d refusing transitions' % n, 'each returns STATE_ERROR', sample=True)
+    chk.floor('R4.8 refusing transitions', n, 2)
 
 
 def radix_table(c, chk, ps):
@@ -174,16 +212,18 @@ def radix_table(c, chk, ps):
         # a leading 0 is itself an octal digit
         wantoff = {'0x': {'&value[2]', 'value'}, '0b': {'&value[2]'}, '0': {'&value[1]', 'value'}, 'other': {'value'}}[key]
         if not offs <= wantoff:
-            bad.append((key, 'digits start at %s' % sorted(offs)))
+            bad.append((key, 'digits start at %s' % sorted(offs), 'digits-start'))
     if '?' in got:
         bad.append(('?', 'a path reaches strtol() without testing the first character'))
-    for key, why in bad:
+    for ent in bad:
+        key, why = ent[0], ent[1]
+        kind_ = ent[2] if len(ent) > 2 else 'radix'
         desc = {'0x': 'prefix "0x"', '0b': 'prefix "0b"', '0': 'other leading "0"', 'other': 'no "0" prefix (signed decimal)', '?': 'unclassified'}[key]
-        chk.fail('R4.6', 'radix:%s' % key, c.where(ps[0].calls('strtol')[0].ins) if ps else 'src/confuse.c',
+        chk.fail('R4.6', '%s:%s' % (kind_, key), c.where(ps[0].calls('strtol')[0].ins) if ps else 'src/confuse.c',
                  'radix selection for %s: expected radix %s, implementation: %s' % (desc, RADIX_REF.get(key, '-'), why)
                  + (' - radix 0 lets strtol() re-detect prefixes, so "-0x10" and "-010" are accepted as hexadecimal/octal' if key == 'other' and 'radix [0]' in why else ''))
     for key, want in RADIX_REF.items():
-        if not any(k == key for k, _ in bad):
+        if not any(e_[0] == key for e_ in bad):
             chk.ok('R4.6', 'prefix class %s' % key, 'radix %d, digits start at %s' % (want, sorted(o for _, o in got.get(key, []))), sample=True)
 
 
